@@ -58,7 +58,7 @@ def Stage.mux : Stage → MuxOp Val Val
   | .wrap sp _ inner => wrap sp inner.mux
   | .tee mode bs => teeMux mode mkTupleV id teeResetAll bs.muxBranches
 def Pipe.mux : Pipe → MuxOp Val Val
-  | .nil => idMux
+  | .nil => idxLift idLocal
   | .cons s rest => compMux s.mux rest.mux
 def Pipes.muxBranches : Pipes → Branches Val Val
   | .nil => .nil
